@@ -4,6 +4,8 @@ the repository.  Each tools/tables/<name>.py provides
 
     MODULE = 'TxdbusModel.Gen.<Name>'      # Lean module it writes
     def emit(repo) -> str                   # full Lean source text, deterministic
+    ADVISORIES = []                         # optional; emit() resets and fills it: "shape not recognised, table
+                                            # re-derived by probing ..." - not an error, but widens the check
 
 A file is only rewritten when its content changes (so lake does not rebuild needlessly).
 Usage: /venv/bin/python tools/extract_tables.py [--repo /repo]
@@ -42,7 +44,11 @@ def run(repo):
             if changed:
                 with open(path, 'w', encoding='utf-8') as f:
                     f.write(text)
-            results.append({'module': module, 'changed_this_run': changed})
+            # a translator that could not recognise a source shape but re-derived the table by probing the code
+            # (or tripped a purely structural guard) says so here: the pipeline then widens the correspondence
+            # run instead of reporting a broken table obligation
+            adv = [str(a) for a in getattr(mod, 'ADVISORIES', [])]
+            results.append({'module': module, 'changed_this_run': changed, 'advisories': adv})
         except Exception as e:
             errors.append({'module': module, 'translator': name,
                            'error': '%r\n%s' % (e, traceback.format_exc()[-1500:])})
@@ -58,6 +64,8 @@ if __name__ == '__main__':
     res, errs = run(repo)
     for r in res:
         print('table', r['module'], 'changed' if r['changed_this_run'] else 'unchanged')
+        for a in r.get('advisories', []):
+            print('  advisory:', a)
     for e in errs:
         print('ERROR', e['translator'], e['error'])
     sys.exit(1 if errs else 0)
